@@ -11,7 +11,7 @@ from sim.terms import T, u
 
 ID = "C17"
 LEVEL = "exploration"
-TIERS = {"quick": {"runs": 5600, "wall_cap": 600}, "thorough": {"runs": 120000, "wall_cap": 3300}}
+TIERS = {"quick": {"runs": 8000, "wall_cap": 600}, "thorough": {"runs": 120000, "wall_cap": 3300}}
 RULE = (
     "each evaluation is one seeded history (<=30 quick / <=60 thorough steps) of bind(prefix, ns, override, replace) / qname / curie / "
     "compute_qname / qname_strict / normalizeUri / URIRef.n3 / expand_curie / Turtle parse declaring prefixes / Turtle+RDF/XML serialise, "
